@@ -1,7 +1,109 @@
-(** C13 (part): 'more models than counter-models' - the rest of C13 is added when Bdd/Counts.v lands *)
-From Coq Require Import NArith.
-From ADF Require Import Gen.GenLeaf Gen.TieLeaf Gen.TieMoreModels.
+(** C13 - Counts, depth, supports and path cubes of a diagram are exact.
+    Statements only; proofs in Bdd/Counts.v, Bdd/Support.v, Bdd/Cubes.v, Gen/TieMoreModels.v.
+    [IsPath st h p b]: p is a root-to-terminal-b path from h (list of (variable, branch));
+    [npaths st h b] = number of such paths ([all_paths] enumerates them, NoDup); [depth_of] the
+    length of the longest one; [nsat st h k] = number of assignments of the variables 0..k-1
+    satisfying the diagram; [CntOK c st] is the invariant of the count cache, which holds in every
+    reachable store (C13_reachable_counts). *)
+From Coq Require Import NArith List Bool.
+From ADF Require Import Spec.Spec Gen.GenLeaf Gen.TieLeaf Gen.TieMoreModels Bdd.Store Bdd.WF Bdd.Node Bdd.Canon Bdd.Counts Bdd.Cubes Bdd.Support.
+Import ListNotations.
 Local Open Scope N_scope.
+
+Theorem C13_paths_enumeration : forall st h b, WFN st -> h < size st ->
+  NoDup (all_paths st h b) /\ (forall p, In p (all_paths st h b) <-> IsPath st h p b).
+Proof. exact all_paths_spec. Qed.
+Print Assumptions C13_paths_enumeration.
+
+(** path counts = number of root-to-bottom / root-to-top paths, on all three code paths (count cache,
+    memoised, naive) and every feature configuration *)
+Theorem C13_paths_exact : forall c st h memo, WF c st -> CntOK c st -> h < size st ->
+  snd (paths c st h memo) = (npaths st h false, npaths st h true).
+Proof. exact paths_exact. Qed.
+Print Assumptions C13_paths_exact.
+
+(** depth = the longest root-to-leaf path (also for the fallback recursion of the build without
+    ad-hoc counting: uses the regenerated flag, C12) *)
+Theorem C13_depth_exact : forall c st h, WF c st -> CntOK c st -> h < size st -> max_depth c st h = depth_of st h.
+Proof. exact depth_exact. Qed.
+Print Assumptions C13_depth_exact.
+Theorem C13_depth_is_longest_path : forall st h, WFN st -> h < size st ->
+  (forall p b, IsPath st h p b -> N.of_nat (length p) <= depth_of st h) /\
+  (exists p b, IsPath st h p b /\ N.of_nat (length p) = depth_of st h).
+Proof. intros st h W H. split; [apply depth_of_upper | apply depth_of_attained]; assumption. Qed.
+Print Assumptions C13_depth_is_longest_path.
+
+(** model and counter-model counts stand in the exact ratio of satisfying to falsifying assignments *)
+Theorem C13_model_counts_exact_ratio : forall st h, WFN st -> h < size st ->
+  let r := count_naive st h in
+  c_pcm r = npaths st h false /\ c_pm r = npaths st h true /\ c_dp r = depth_of st h /\
+  forall k, vars_below st h k -> depth_of st h <= k ->
+    c_m r * 2 ^ (k - depth_of st h) = nsat st h k /\ c_cm r * 2 ^ (k - depth_of st h) = 2 ^ k - nsat st h k.
+Proof. exact count_naive_exact. Qed.
+Print Assumptions C13_model_counts_exact_ratio.
+
+(** naive and memoised procedures agree wherever memoisation is documented to work; the excluded
+    case (ad-hoc path counting without ad-hoc model counting, memoised) really differs *)
+Theorem C13_models_agree : forall c st h memo, WF c st -> CntOK c st -> h < size st -> (adhoc c = 1 -> memo = false) ->
+  snd (models c st h memo) = (c_cm (count_naive st h), c_m (count_naive st h)).
+Proof. exact models_exact. Qed.
+Print Assumptions C13_models_agree.
+Theorem C13_documented_exception_is_real :
+  ~ (forall c st h memo, WF c st -> CntOK c st -> h < size st ->
+       snd (models c st h memo) = (c_cm (count_naive st h), c_m (count_naive st h))).
+Proof. exact models_memo_adhoc1_refuted. Qed.
+Print Assumptions C13_documented_exception_is_real.
+
+(** the count-cache invariant holds in every reachable store *)
+Theorem C13_reachable_counts : forall c p st regs, adhoc c <= 2 -> run c (init c, []) p = Some (st, regs) -> CntOK c st.
+Proof. exact reachable_cntok. Qed.
+Print Assumptions C13_reachable_counts.
+
+(** the guard under which the code's usize arithmetic is this N arithmetic (beyond it: known finding) *)
+Theorem C13_no_overflow_below_depth_64 : forall st h, WFN st -> h < size st -> depth_of st h <= 63 ->
+  let r := count_naive st h in
+  c_cm r < 2 ^ 64 /\ c_m r < 2 ^ 64 /\ c_pcm r < 2 ^ 64 /\ c_pm r < 2 ^ 64 /\ c_dp r < 2 ^ 64.
+Proof. exact counts_bounded. Qed.
+Print Assumptions C13_no_overflow_below_depth_64.
+
+(** the dependency set is exactly the set of variables the function depends on (both code paths) *)
+Theorem C13_dependencies_exact : forall c st h v, WF c st -> h < size st ->
+  (In v (var_dependencies c st h) <-> depends (den st h) v).
+Proof. exact deps_exact. Qed.
+Print Assumptions C13_dependencies_exact.
+Theorem C13_passive_impact : forall c st v tl, WF c st -> Forall (fun h => h < size st) tl ->
+  passive_var_impact c st v tl = N.of_nat (length (filter (fun h => nset_mem v (var_dependencies c st h)) tl)) /\
+  (forall h, In h tl -> (nset_mem v (var_dependencies c st h) = true <-> depends (den st h) v)).
+Proof. exact passive_impact_exact. Qed.
+Print Assumptions C13_passive_impact.
+Theorem C13_active_impact : forall c st v tl, WF c st -> Forall (fun h => h < size st) tl ->
+  let t := nth (N.to_nat v) tl 0 in
+  t < size st /\
+  active_var_impact c st v tl = N.of_nat (length (filter (fun idx => nset_mem (N.of_nat idx) (var_dependencies c st t)) (seq 0 (length tl)))) /\
+  (forall idx, nset_mem (N.of_nat idx) (var_dependencies c st t) = true <-> depends (den st t) (N.of_nat idx)).
+Proof. exact active_impact_exact. Qed.
+Print Assumptions C13_active_impact.
+
+(** path cubes: pairwise disjoint; for a non-terminal root they cover, where the goal variable has
+    the goal value, exactly the (counter-)models.  For a terminal root the code returns no cube even
+    when the terminal equals the goal (known finding, pinned by the repository's own unit test) *)
+Theorem C13_cubes_disjoint : forall st h goal gv, WFN st -> h < size st ->
+  forall i j c1 c2, i <> j -> nth_error (cubes st h goal gv) i = Some c1 -> nth_error (cubes st h goal gv) j = Some c2 ->
+  forall a, ~ (in_cube a c1 /\ in_cube a c2).
+Proof. exact cubes_disjoint. Qed.
+Print Assumptions C13_cubes_disjoint.
+Theorem C13_cubes_cover : forall st h goal gv, WFN st -> 2 <= h -> h < size st ->
+  forall a, a gv = goal -> (den st h a = goal <-> exists cube, In cube (cubes st h goal gv) /\ in_cube a cube).
+Proof. exact cubes_cover. Qed.
+Print Assumptions C13_cubes_cover.
+Theorem C13_cubes_terminal_root_finding :
+  ~ (forall st h goal gv, WFN st -> h < size st -> forall a, a gv = goal ->
+       (den st h a = goal <-> exists cube, In cube (cubes st h goal gv) /\ in_cube a cube)).
+Proof. exact cubes_terminal_refuted. Qed.
+Print Assumptions C13_cubes_terminal_root_finding.
+
+(** 'more models than counter-models' is true iff models >= counter-models (definition regenerated
+    from the source) *)
 Theorem C13_more_models : forall cm m, g_more_models (cm, m) = (cm <=? m).
 Proof. exact more_models_spec. Qed.
 Print Assumptions C13_more_models.
